@@ -39,6 +39,7 @@ KERNELS = {
     "C16": ["k_set_variable"],
     "C17": ["k_for_bounds", "k_if_dispatch"],
     "C36": ["k_comment_dispatch", "k_module_init"],
+    "C18": ["k_formal_args_eval"],
     "C21": ["k_error_and_drop"],
     "C26": ["k_str_slice", "k_str_insert", "k_str_index_length"],
     "C29": ["k_math_bounding", "k_math_percentage", "k_math_clamp", "k_find_extreme"],
@@ -393,6 +394,20 @@ STRUCTURAL_PROBES = {
     "k_find_extreme": [("math.max(1, 3, 2)", "3"), ("math.min(1, 3, 2, 0.5)", "0.5"), ("math.max(1px, 1in)", "1in"), ("math.min(1px, 1in)", "1px"),
                        ("math.max(3, 1, 2)", "3"), ("math.min(2, 3, 1)", "1"), ("max(1px, 1em)", "max(1px, 1em)"), ("math.max(2, 2.5, 2.25)", "2.5"),
                        ("math.min(1s, 500ms)", "500ms")],
+    "k_formal_args_eval": [
+        ("@function f($a, $b: $a * 2) { @return $b } a { b: f(3) }", "b: 6"),
+        ("@function f($a, $b) { @return $a - $b } a { b: f($b: 1, $a: 5) }", "b: 4"),
+        ("@function f($a, $b: 2) { @return $a + $b } a { b: f(1, $b: 5) }", "b: 6"),
+        ("@function f($a, $b: 2) { @return $a + $b } a { b: f(1) }", "b: 3"),
+        ("@function f($a) { @return $a } a { b: f(1, 2) }", "<error>"),
+        ("@function f($a) { @return $a } a { b: f($c: 2) }", "<error>"),
+        ("@function f($a) { @return $a } a { b: f() }", "<error>"),
+        ("@function f($a) { @return $a } a { b: f(1, $a: 2) }", "<error>"),
+        ("@function f($a, $rest...) { @return length($rest) } a { b: f(1, 2, 3) }", "b: 2"),
+        ("@function f($a-b) { @return $a-b } a { b: f($a_b: 7) }", "b: 7"),
+        ("@mixin m($x: 1, $y: $x + 1) { c: $y } a { @include m($x: 4) }", "c: 5"),
+        ("$x: 10; @function f($x, $y: $x + 1) { @return $y } a { b: f(1) }", "b: 2"),
+    ],
     "k_list_index": [("inspect(index(a b c, c))", "3"), ("inspect(index(a b a, a))", "1"), ("inspect(index((a: 1, b: 2), b 2))", "2"),
                      ("inspect(index((a: 1, b: 2), b 9))", "null"), ("inspect(index((a: 1, b: 2), x 2))", "null"), ("inspect(index((a: 1, b: 2), (b, 2)))", "null"),
                      ("inspect(index(a, a))", "1"), ("inspect(index(a, b))", "null"), ("inspect(index((a: 1, b: 2), [b 2]))", "null"),
